@@ -1,22 +1,39 @@
 ; Integer lemmas that B1 (CBMC) uses as ghost assumptions because SAT cannot do non-linear integer
 ; arithmetic.  Each is proved here over unbounded integers; the ranges make the machine terms wrap-free.
+; The non-linear steps are split into two general facts (H1 distributivity, H2 monotonicity), each an obligation
+; of its own; the lemmas then use INSTANCES of these proven facts as hypotheses and close by linear arithmetic.
 (declare-const i Int)
 (declare-const D Int)
 (declare-const b Int)
 (declare-const n Int)
-; @obligation L-row-within-grid a grid row lies inside the boundary array: i < D, x.n = D*(b+1)  ==>  i*(b+1)+b < x.n, nothing wraps
-(assert (not (=> (and (<= 0 i) (< i D) (<= D 1024) (<= 1 b) (<= b 1048576) (= n (* D (+ b 1))))
-                 (and (< (+ (* i (+ b 1)) b) n) (< n 18446744073709551616) (< (* i (+ b 1)) 18446744073709551616)))))
-; @obligation L-grid-index boundary k of dimension i lies inside the array: i < D, k <= b, x.n = D*(b+1)  ==>  i*(b+1)+k < x.n, nothing wraps
 (declare-const k Int)
+(declare-const c Int)
+(declare-const d Int)
+(declare-const x Int)
+(declare-const y Int)
+(declare-const z Int)
+; @obligation L-H1-distributivity  x*z = y*z + (x-y)*z
+(assert (not (= (* x z) (+ (* y z) (* (- x y) z)))))
+; @obligation L-H2-monotonicity  x >= 1, z >= 0  ==>  x*z >= z
+(assert (not (=> (and (>= x 1) (>= z 0)) (>= (* x z) z))))
+; @obligation L-H3-bound  0 <= x <= X, 0 <= z <= Z  ==>  x*z <= X*Z   (instance X = 1024, Z = 1048577)
+(assert (not (=> (and (<= 0 x) (<= x 1024) (<= 0 z) (<= z 1048577)) (and (<= 0 (* x z)) (<= (* x z) (* 1024 1048577))))))
+; @obligation L-grid-index boundary k of dimension i lies inside the array: i < D, k <= b, x.n = D*(b+1)  ==>  i*(b+1)+k < x.n, nothing wraps
+; instances of H1 (x:=D, y:=i, z:=b+1), H2 (x:=D-i, z:=b+1), H3 (x:=D, z:=b+1) and (x:=i, z:=b+1)
+(assert (= (* D (+ b 1)) (+ (* i (+ b 1)) (* (- D i) (+ b 1)))))
+(assert (=> (and (>= (- D i) 1) (>= (+ b 1) 0)) (>= (* (- D i) (+ b 1)) (+ b 1))))
+(assert (=> (and (<= 0 D) (<= D 1024) (<= 0 (+ b 1)) (<= (+ b 1) 1048577)) (and (<= 0 (* D (+ b 1))) (<= (* D (+ b 1)) (* 1024 1048577)))))
+(assert (=> (and (<= 0 i) (<= i 1024) (<= 0 (+ b 1)) (<= (+ b 1) 1048577)) (and (<= 0 (* i (+ b 1))) (<= (* i (+ b 1)) (* 1024 1048577)))))
 (assert (not (=> (and (<= 0 i) (< i D) (<= D 1024) (<= 1 b) (<= b 1048576) (<= 0 k) (<= k b) (= n (* D (+ b 1))))
                  (and (< (+ (* i (+ b 1)) k) n) (< n 18446744073709551616) (< (* i (+ b 1)) 18446744073709551616)))))
-; @obligation L-adj-index slot of (dimension j, bin c) lies inside the adjustment data: j < D, c < b  ==>  j*b + c < D*b <= 2^30, nothing wraps
-(declare-const c Int)
+; @obligation L-adj-index slot of (dimension j, bin c) lies inside the adjustment data: i < D, c < b  ==>  i*b + c < D*b <= 2^31, nothing wraps
+(assert (= (* D b) (+ (* i b) (* (- D i) b))))
+(assert (=> (and (>= (- D i) 1) (>= b 0)) (>= (* (- D i) b) b)))
+(assert (=> (and (<= 0 D) (<= D 1024) (<= 0 b) (<= b 1048577)) (and (<= 0 (* D b)) (<= (* D b) (* 1024 1048577)))))
+(assert (=> (and (<= 0 i) (<= i 1024) (<= 0 b) (<= b 1048577)) (and (<= 0 (* i b)) (<= (* i b) (* 1024 1048577)))))
 (assert (not (=> (and (<= 0 i) (< i D) (<= 1 D) (<= D 1024) (<= 1 b) (<= b 1048576) (<= 0 c) (< c b))
                  (and (< (+ (* i b) c) (* D b)) (<= (* D b) 1099511627776)))))
 ; @obligation L-fold-mul adding d once per call is multiplication: (i+1)*d = i*d + d (step of the ghost fold used for C10.total)
-(declare-const d Int)
 (assert (not (= (* (+ i 1) d) (+ (* i d) d))))
 ; @obligation L-sanity_sat_expected the hypotheses are satisfiable
 (assert (and (<= 0 i) (< i D) (<= D 1024) (<= 1 b) (<= b 1048576) (= n (* D (+ b 1)))))
